@@ -1,6 +1,10 @@
 /-
   Lungo.Proofs.ConcAll — assembly: `Inv1 ∧ Inv2` hold in every reachable state.
 -/
+import Lungo.Proofs.ConcInv
+import Lungo.Proofs.ConcFrame
+import Lungo.Proofs.ConcOwn
+import Lungo.Proofs.ConcOwn2
 import Lungo.Proofs.ConcOwn3
 namespace Lungo.Conc
 
